@@ -42,6 +42,7 @@ def decOp (j : Json) : Except String Op := do
     -- leader: 0 = no endpoint published for the cluster's shard, k > 0 = leader number k
     pure (.sync (← J.getBool j "fail") (← J.getNat j "n") (if l = 0 then none else some l) (← J.getInt j "now"))
   | "event" => pure .event
+  | "restart" => pure .restart
   | "acquire" => pure (.acquire (← J.getNat j "id"))
   | "release" => pure (.release (← J.getNat j "id"))
   | "tick" =>
